@@ -37,6 +37,9 @@ def run(ctx):
     r84(ctx)
     r85(ctx)
     r86(ctx)
+    from ..statrules import shared_class_state
+    shared_class_state(ctx, 'R8.8', sorted(c for c, ci in ctx.prog.classes.items() if ci.module.name == 'pubsub'),
+                       'a listener subscribed to one producer is notified by every producer (and removing it from one removes it from all)')
     ctx.rule('R8.7', 'refused subscribe / unsubscribe / fire calls change nothing (refuse-before-effect)')
     ctx.assume('names bound to elements of the producer\'s own listener map are well typed')
     rbe_check(ctx, 'R8.7', P, ('add_listener', 'remove_listener', 'remove_all_listeners', 'fire_event', 'fire_timed_event', 'fire', 'fire_timed'),
@@ -150,6 +153,33 @@ def r82(ctx):
         for st in walk_shallow(fn):
             if isinstance(st, ast.Assign) and any(isinstance(t, ast.Subscript) and is_self_attr(t.value, F) for t in st.targets):
                 ok = (isinstance(st.value, ast.List) and not st.value.elts) or (isinstance(st.value, ast.Call) and unparse(st.value.func) == 'list')
+                tgt = [t for t in st.targets if isinstance(t, ast.Subscript) and is_self_attr(t.value, F)][0]
+                key, lst = unparse(tgt.slice), unparse(tgt)
+                g = g or CFG(fn)
+                guards = [(unparse(cn.ast), br) for (cn, br) in g.guard_branches(g.node_for(st))]
+                if isinstance(st.value, ast.List) and st.value.elts:
+                    # a list display with elements is an insertion: only into a fresh key, one element
+                    n += 1
+                    ok = len(st.value.elts) == 1 and any((t in (f'{key} not in self.{F}', f'not {key} in self.{F}') and br) or (t == f'{key} in self.{F}' and not br)
+                                                         for (t, br) in guards)
+                    if not ok:
+                        ctx.ob('R8.2', f'{P}.{fn.name}:new-list', False, sample=f'{P}.{fn.name}: {short(st)}')
+                        ctx.finding('R8.2', f'{P}.{fn.name}:insert-by-display', ci, st,
+                                    f'`{short(st)}` stores listeners without the test that the event type has no list yet: earlier subscriptions are dropped or duplicated',
+                                    where=f'{P}.{fn.name}')
+                        continue
+                elif isinstance(st.value, ast.BinOp) and isinstance(st.value.op, ast.Add) and unparse(st.value.left) == lst \
+                        and isinstance(st.value.right, ast.List) and len(st.value.right.elts) == 1:
+                    # copy-on-write append `lists[k] = lists[k] + [x]`: an insertion that needs the same duplicate guard
+                    n += 1
+                    arg = unparse(st.value.right.elts[0])
+                    ok = any((t in (f'{arg} not in {lst}', f'not {arg} in {lst}') and br) or (t == f'{arg} in {lst}' and not br) for (t, br) in guards)
+                    if not ok:
+                        ctx.ob('R8.2', f'{P}.{fn.name}:append', False, sample=f'{P}.{fn.name}: {short(st)}')
+                        ctx.finding('R8.2', f'{P}.{fn.name}:append', ci, st,
+                                    f'`{short(st)}` is not dominated by `{arg} not in {lst}`: a duplicate subscription is stored and the listener is notified twice',
+                                    where=f'{P}.{fn.name}')
+                        continue
                 ctx.ob('R8.2', f'{P}.{fn.name}:new-list', ok, sample=f'{P}.{fn.name}: {short(st)}')
                 if not ok:
                     ctx.finding('R8.2', f'{P}.{fn.name}:container-kind', ci, st,
